@@ -864,7 +864,7 @@ fn run_history(rep: &mut Report, prop: &str, seed: u64, len: usize) -> HistoryOu
                     .get_state(&PeerIndex::new(p as usize))
                     .and_then(|st| st.get_prove_state().map(|ps| ps.get_last_header().header().hash() == chain.tip().hash()))
                     .unwrap_or(false);
-                if variant == 2 && proved_tip && chain.tip_number() >= 3 && !forged_now && rng.chance(1, 2) {
+                if variant == 2 && proved_tip && chain.tip_number() >= 3 && !forged_now && (if prop == "C01" { fnv(&format!("{}:{}:{}:sibling", seed, now, p)) % 2 == 0 } else { rng.chance(1, 2) }) {
                     // two steps.  First a sibling Q of the peer's proved tip P (same height, own
                     // block) that commits to a parent chain root with an inflated total difficulty:
                     // nothing but an unproven announcement.  Then a child C of P whose parent
